@@ -1,6 +1,7 @@
 package main
 
 import (
+	"math"
 	"fmt"
 
 	geom "github.com/twpayne/go-geom"
@@ -68,6 +69,17 @@ func genC15(r *Rng, e *Emitter, n int) {
 				c[k] = a[k] + float64(r.Intn(7)-3)
 				d[k] = b[k] + float64(r.Intn(7)-3)
 			}
+		}
+		if r.chance(1, 4) {
+			// signed zeros: +0 and -0 are the same number
+			for _, p := range []geom.Coord{a, b, c, d} {
+				for k := 0; k < dim; k++ {
+					if p[k] == 0 && r.chance(1, 2) {
+						p[k] = math.Copysign(0, -1)
+					}
+				}
+			}
+			e.tally("signed-zeros")
 		}
 		e.tally(fmt.Sprintf("grid=%d", g))
 		defer0()
